@@ -178,3 +178,22 @@ func cmdSteps(args []string) {
 	w.close()
 	fmt.Printf(`{"steps":%d,"limited":%d,"died":%d,"twopush":%d,"panics":%d,"shards":%d}`+"\n", st.n, st.limited, st.died, st.twoPush, st.panics, *shards)
 }
+
+// steps-replay: re-execute recorded step events (only the inputs are used) and
+// write fresh events; used to reproduce a rejection before it is reported.
+func cmdStepsReplay(args []string) {
+	fs := flag.NewFlagSet("steps-replay", flag.ExitOnError)
+	in := fs.String("in", "", "ndjson with events")
+	out := fs.String("out", "", "output ndjson")
+	fs.Parse(args)
+	evs := readNDJSON(*in)
+	w := newShardWriter(*out, 1)
+	for _, e := range evs {
+		m, rl, wl, p, pc := jint(e["M"]), jint(e["RL"]), jint(e["WL"]), jint(e["P"]), jint(e["pc"])
+		pre := jinsList(e["pre"])
+		res := runStep(m, rl, wl, p, pc, pre)
+		w.line(stepLine(m, rl, wl, p, pc, pre, res))
+	}
+	w.close()
+	fmt.Printf(`{"replayed":%d}`+"\n", len(evs))
+}
